@@ -826,12 +826,13 @@ def run_case(scn, api, loop, sockcfg, proto):
             written = None
             if r["outcome"] == "ok" and api in EXPECT and r["rc"] == 0:
                 ptype, topic = EXPECT[api]
-                if api == "reconnect":
-                    target = e.c.socks[-1] if len(e.c.socks) > r["nsocks"] else None
-                else:
-                    target = r["sock_at_call"]
+                # reconnect(): a CONNECT on the socket it opened - or on a later one when the loop itself
+                # reconnects right afterwards (loop_forever's automatic reconnect replaces the socket)
+                target = True if api == "reconnect" else r["sock_at_call"]
                 if target is not None and (api == "reconnect" or not ends):
                     def present():
+                        if api == "reconnect":
+                            return any(e.has_packet(x, ptype, topic) for x in e.c.socks[r["nsocks"]:])
                         return e.has_packet(target, ptype, topic)
                     if loop == "thread":
                         try:
@@ -961,6 +962,11 @@ def judge(results, out):
             out.violations.append({"case": c, "what": f"self-deadlock outside any user callback: {o}",
                                    "signature": signature("none", c["scenario"], o["lock"])})
             continue
+        if "_key" not in r:
+            # blocked (watchdog) before or after the probed callback, not inside the nested call
+            out.violations.append({"case": c, "signature": signature("none", c["scenario"], r.get("lock", "hang")),
+                                   "what": f"conversation did not finish within {WATCHDOG_S}s outside the nested call: {r.get('stack')}"})
+            continue
         out.validated += 1
         key = r["_key"]
         sites = decode_sites(pred[qidx[key]])
@@ -1086,13 +1092,18 @@ def run(ctx, out):
 
 
 def replay(payload):
-    c = payload.get("case", {})
-    if not c or "scenario" not in c:
+    cases = payload.get("cases") or ([payload["case"]] if payload.get("case") else [])
+    cases = [c for c in cases if c and "scenario" in c]
+    if not cases:
         return True, {"note": "nothing to replay"}
+    allok, details = True, []
     with Patched():
-        r = run_case(c["scenario"], c["api"], c["loop"], c["sockcfg"], c["proto"])
-    ok = r["outcome"] == "ok" and r.get("written") is not False and not r.get("outside")
-    return ok, {k: v for k, v in r.items() if not k.startswith("_")}
+        for c in cases:
+            r = run_case(c["scenario"], c["api"], c["loop"], c["sockcfg"], c["proto"])
+            ok = r["outcome"] == "ok" and r.get("written") is not False and not r.get("outside")
+            allok = allok and ok
+            details.append({k: v for k, v in r.items() if not k.startswith("_") and k != "impl_kinds"})
+    return allok, {"holds": allok, "results": details}
 
 
 def finding_still_fails(f):
